@@ -668,9 +668,12 @@ pub fn run_scenario(sc: &Scenario, domain: u16, prop: SProp, acc: &mut Acc, tag:
     }
   };
 
+  // idle share of the machine during the last wait that ran out of time
+  let mut last_timeout_idle: Option<f64> = None;
   macro_rules! wait_until {
     ($timeout_s:expr, $cond:expr) => {{
       let t0 = Instant::now();
+      let stat0 = crate::ctx::proc_stat();
       let mut ok = false;
       while t0.elapsed().as_secs_f64() < $timeout_s {
         keepalive(&mut fakes, &alive);
@@ -680,7 +683,23 @@ pub fn run_scenario(sc: &Scenario, domain: u16, prop: SProp, acc: &mut Acc, tag:
         }
         std::thread::sleep(StdDuration::from_millis(2));
       }
+      if !ok {
+        last_timeout_idle = crate::ctx::idle_share_since(stat0);
+      }
       ok
+    }};
+  }
+  // an upper time bound that expires on a saturated machine is no verdict (the participant's threads may not have run)
+  macro_rules! saturated {
+    ($what:expr) => {{
+      match last_timeout_idle {
+        Some(idle) if idle < crate::ctx::SATURATED_IDLE => {
+          acc.count("stack_waits_timed_out_on_a_saturated_machine_not_judged", 1);
+          acc.inconclusive.push(format!("{} while only {:.0} % of the machine's CPU time was idle during the wait (saturated machine, not judged)", $what, idle * 100.0));
+          true
+        }
+        _ => false,
+      }
     }};
   }
 
@@ -908,6 +927,10 @@ pub fn run_scenario(sc: &Scenario, domain: u16, prop: SProp, acc: &mut Acc, tag:
           pump_plog!();
           plog.iter().any(|(k, p, _, _)| k.starts_with("lost") && *p == pf)
         });
+        if !ok && saturated!("C12/dispose:explicit-dispose-did-not-remove-participant") {
+          out.aborted = true;
+          continue;
+        }
         if !ok {
           viol(acc, SProp::C12, "C12/dispose:explicit-dispose-did-not-remove-participant".into(), json!({"step": step, "waited_s": t_send.elapsed().as_secs_f64()}));
           out.aborted = true;
@@ -935,6 +958,10 @@ pub fn run_scenario(sc: &Scenario, domain: u16, prop: SProp, acc: &mut Acc, tag:
           pump_plog!();
           plog.iter().any(|(k, p, _, _)| k.starts_with("lost") && *p == pf)
         });
+        if !ok && saturated!("C12/drop-after:silent-participant-not-dropped-after-lease") {
+          out.aborted = true;
+          continue;
+        }
         if !ok {
           viol(acc, SProp::C12, "C12/drop-after:silent-participant-not-dropped-after-lease".into(), json!({"step": step, "lease_s": lease, "waited_s": t_after.elapsed().as_secs_f64()}));
           out.aborted = true;
